@@ -130,6 +130,10 @@ pub enum Stmt {
     SubD(u8, u8),
     /// x += 3y, y cleared
     Add3(u8, u8),
+    /// x += y*z, y cleared, z kept (through scratch)
+    Mul(u8, u8, u8),
+    /// x += y*y, y cleared (through both scratch cells)
+    Sq(u8, u8),
 }
 
 fn go(out: &mut Vec<u8>, from: i32, to: i32) {
@@ -206,6 +210,69 @@ impl Stmt {
                 Stmt::Zero(x).emit(out);
                 Stmt::AddP(x, y).emit(out);
             }
+            Stmt::Mul(x, y, z) => {
+                let (x, y, z) = (x as i32, y as i32, z as i32);
+                go(out, 0, y);
+                out.extend_from_slice(b"[-");
+                go(out, y, z);
+                out.extend_from_slice(b"[-");
+                go(out, z, x);
+                out.push(b'+');
+                go(out, x, SCRATCH);
+                out.push(b'+');
+                go(out, SCRATCH, z);
+                out.push(b']');
+                go(out, z, SCRATCH);
+                out.extend_from_slice(b"[-");
+                go(out, SCRATCH, z);
+                out.push(b'+');
+                go(out, z, SCRATCH);
+                out.push(b']');
+                go(out, SCRATCH, y);
+                out.push(b']');
+                go(out, y, 0);
+            }
+            Stmt::Sq(x, y) => {
+                let (x, y) = (x as i32, y as i32);
+                let (t1, t2) = (SCRATCH, SCRATCH + 1);
+                // t1 = y (y kept through t2)
+                go(out, 0, y);
+                out.extend_from_slice(b"[-");
+                go(out, y, t1);
+                out.push(b'+');
+                go(out, t1, t2);
+                out.push(b'+');
+                go(out, t2, y);
+                out.push(b']');
+                go(out, y, t2);
+                out.extend_from_slice(b"[-");
+                go(out, t2, y);
+                out.push(b'+');
+                go(out, y, t2);
+                out.push(b']');
+                // for each unit of y: x += t1 (t1 kept through t2)
+                go(out, t2, y);
+                out.extend_from_slice(b"[-");
+                go(out, y, t1);
+                out.extend_from_slice(b"[-");
+                go(out, t1, x);
+                out.push(b'+');
+                go(out, x, t2);
+                out.push(b'+');
+                go(out, t2, t1);
+                out.push(b']');
+                go(out, t1, t2);
+                out.extend_from_slice(b"[-");
+                go(out, t2, t1);
+                out.push(b'+');
+                go(out, t1, t2);
+                out.push(b']');
+                go(out, t2, y);
+                out.push(b']');
+                go(out, y, t1);
+                out.extend_from_slice(b"[-]");
+                go(out, t1, 0);
+            }
         }
     }
 }
@@ -269,6 +336,15 @@ pub fn all_stmts() -> Vec<Stmt> {
             }
         }
     }
+    for x in 0..3u8 {
+        for y in 0..3u8 {
+            if x != y {
+                v.push(Stmt::Sq(x, y));
+                let z = 3 - x - y;
+                v.push(Stmt::Mul(x, y, z));
+            }
+        }
+    }
     v
 }
 
@@ -314,7 +390,7 @@ pub const PREFIXES: [&str; 3] = [
     // mixed
     "+++>,>++<<",
 ];
-pub const EPILOGUE: &str = ".>.>.>.";
+pub const EPILOGUE: &str = ".>.>.>.>.";
 
 /// S(1,k): prefix · loop(shape, var a) around every body of <= k statements · epilogue.
 /// `inner`: additionally S(2,·) — bodies may contain one inner loop (on b or c) around <= `inner`
@@ -700,6 +776,46 @@ pub fn space_m(full: bool) -> Vec<Vec<u8>> {
         }
         p.extend_from_slice(b"<.");
         v.push(p);
+    }
+    v
+}
+
+// ---------------------------------------------------------------------------------------------
+// V: wide values. An input byte is shifted left by 4k bits through k constant-multiplier loops
+// (closed form on optimising configurations), then used as a loop / branch condition and
+// printed: cells whose low 8/16/32 bits are zero but which are not zero.
+
+pub fn space_v() -> Vec<Vec<u8>> {
+    let mut v = Vec::new();
+    for k in [1usize, 2, 3, 4, 6, 7, 8, 9, 12, 15, 16] {
+        let mut shl = Vec::new();
+        for r in 0..k {
+            if r % 2 == 0 {
+                shl.extend_from_slice(b"[>++++++++++++++++<-]>");
+            } else {
+                shl.extend_from_slice(b"[<++++++++++++++++>-]<");
+            }
+        }
+        // if k is odd the value ends one cell to the right
+        let tails: [&[u8]; 5] = [
+            b"[[-]>>+<<]>>.",            // non-zero test (while loop that clears)
+            b">>+<<[>>-<<[-]]>>.",       // zero test
+            b"[>>+<<[-]]>>.",            // if
+            b"-[>>+<<[-]]>>.",           // decrement first, then test (borrow across the low bits)
+            b".[>>+>+<<<[-]]>>.>.",      // print low byte, then a test feeding two cells
+        ];
+        for t in tails {
+            let mut p = b",".to_vec();
+            p.extend_from_slice(&shl);
+            p.extend_from_slice(t);
+            v.push(p);
+            // a second input added into the low bits afterwards
+            let mut p = b",".to_vec();
+            p.extend_from_slice(&shl);
+            p.extend_from_slice(b">>>>,[-<<<<+>>>>]<<<<");
+            p.extend_from_slice(t);
+            v.push(p);
+        }
     }
     v
 }
